@@ -116,3 +116,9 @@ func VerifCacheStats(c *loadingCache) (entries, capacity, resets int) {
 	defer c.RUnlock()
 	return len(c.m), c.cap, c.reset
 }
+
+// VerifHashCode returns the identity hash the engine computes for the node
+// the navigator is positioned on (union and ancestor de-duplication).
+func VerifHashCode(n NodeNavigator) uint64 {
+	return getHashCode(n.Copy())
+}
